@@ -489,7 +489,7 @@ enum GrinOut {
 static HANG_STATE: AtomicU32 = AtomicU32::new(0);
 
 fn hang_timeout() -> Duration {
-	Duration::from_millis(std::env::var("GV_C05_HANG_MS").ok().and_then(|s| s.parse().ok()).unwrap_or(2500))
+	Duration::from_millis(std::env::var("GV_C05_HANG_MS").ok().and_then(|s| s.parse().ok()).unwrap_or(8000))
 }
 
 /// true = caller may execute the predicted-hang tuple (and must call
